@@ -36,7 +36,7 @@ type creator func(ctx context.Context, name string, options map[string]string) (
 
 func ctxWith() context.Context {
 	return config.ContextWithConfig(context.Background(), &config.Config{Files: config.FilesConfig{
-		BufferSizeBytes: 4096 * 1024, JSON: config.JSONConfig{MaxLineSizeBytes: 1024 * 1024}}})
+		BufferSizeBytes: 32 * 1024, JSON: config.JSONConfig{MaxLineSizeBytes: 1024 * 1024}}})
 }
 
 func runSource(cr creator, path string, options map[string]string) (schema physical.Schema, recs [][]octosql.Value, createErr, runErr error, panicked interface{}) {
@@ -330,7 +330,7 @@ func csvFileCase(cf *lib.CaseFile, r *lib.Rng, dir string, idx int) {
 		}
 	}
 	nrows := r.Intn(8)
-	if r.Chance(1, 3) {
+	if r.Chance(1, 5) {
 		nrows = 99 + r.Intn(12)
 	}
 	wild := r.Chance(1, 4)
@@ -530,7 +530,7 @@ func jsonFileCase(cf *lib.CaseFile, r *lib.Rng, dir string, idx int, flat bool) 
 		}
 	}
 	nrows := 1 + r.Intn(8)
-	if !flat && r.Chance(1, 3) {
+	if !flat && r.Chance(1, 5) {
 		nrows = 99 + r.Intn(12)
 	}
 	neverMissing := make([]bool, len(keys)) // columns present in every row stay non-nullable
@@ -620,6 +620,10 @@ func jsonFileCase(cf *lib.CaseFile, r *lib.Rng, dir string, idx int, flat bool) 
 }
 
 func main() {
+	if len(os.Args) > 1 && os.Args[1] == "cli" {
+		cliMain(os.Args[2:])
+		return
+	}
 	f := lib.ParseFlags()
 	if f.Cmd != "run" {
 		fmt.Fprintln(os.Stderr, "c24: only 'run'")
@@ -665,7 +669,7 @@ func main() {
 	}
 
 	// (b) CSV files: the pinned failures first
-	for i, n := 0, f.Cases(45, 700); i < n; i++ {
+	for i, n := 0, f.Cases(36, 700); i < n; i++ {
 		csvFileCase(cf, rng.Fork(), dir, i)
 	}
 	// (c) getOctoSQLValue
@@ -673,12 +677,22 @@ func main() {
 		jvalueCase(cf, rng.Fork())
 	}
 	// (d) JSON files, (e) flat inference
-	for i, n := 0, f.Cases(36, 500); i < n; i++ {
+	for i, n := 0, f.Cases(30, 500); i < n; i++ {
 		jsonFileCase(cf, rng.Fork(), dir, i, false)
 	}
 	for i, n := 0, f.Cases(50, 600); i < n; i++ {
 		jsonFileCase(cf, rng.Fork(), dir, 100000+i, true)
 	}
+
+	// (f) the systematic sweep: column kind x late shape, full / pruned field lists / command line
+	t0 := time.Now()
+	cliCases := csvMatrix(cf, f.Seed, dir, f.Tier)
+	t1 := time.Now()
+	cliCases = append(cliCases, jsonMatrix(cf, f.Seed, dir, f.Tier)...)
+	t2 := time.Now()
+	jvalueSweep(cf)
+	runCLICases(cf, dir, cliCases)
+	cf.Side.Notes = append(cf.Side.Notes, fmt.Sprintf("sweep timing: csv matrix %.1fs, json matrix %.1fs, value sweep + command line %.1fs", t1.Sub(t0).Seconds(), t2.Sub(t1).Seconds(), time.Since(t2).Seconds()))
 
 	if err := cf.Write(f.Out); err != nil {
 		fmt.Fprintln(os.Stderr, err)
